@@ -75,6 +75,16 @@ func (p *Program) findFunc(pkgPath, name string) *ssa.Function {
 	if sp == nil {
 		return nil
 	}
+	// closure: Parent$N
+	if i := strings.LastIndex(name, "$"); i > 0 {
+		parent := p.findFunc(pkgPath, name[:i])
+		var n int
+		fmt.Sscanf(name[i+1:], "%d", &n)
+		if parent == nil || n < 1 || n > len(parent.AnonFuncs) {
+			return nil
+		}
+		return parent.AnonFuncs[n-1]
+	}
 	if !strings.Contains(name, ".") {
 		return sp.Func(name)
 	}
